@@ -382,3 +382,8 @@ MANIFEST_TEXT["C07"] = {
     "note": "Trusted: Lean kernel (axioms propext/Classical.choice/Quot.sound at most), extractor, harness. JSON decoding (hex strings, the seven status strings) is a fact supplied by the harness's mirror structs.",
     "technique": "Lean 4 proof over an executable model + differential correspondence with an independent oracle",
 }
+
+# ---- non-vacuity of the verification group: the concrete honest world of lean/TdxProofs/Example (built and audited with each of these checks)
+for _p in ("C01", "C02", "C03", "C04", "C05", "C06", "C07", "C11", "C12"):
+    PROPS[_p]["tie_modules"] = ["TdxProofs.Example.NonVacuity"]
+    PROPS[_p]["tie_theorems"] = ["Tdx.Example.accepted_base", "Tdx.Example.accepted_collateral", "Tdx.Example.accepted_revocation"]
